@@ -152,8 +152,39 @@ def _name_tables():
     assert chk == dict(single), "lower-table compression is wrong"
     info["lower_entries"] = len(single) + len(special)
     info["lower_runs"] = len(runs)
+    # balanced search tree over the (disjoint, sorted) runs
+    assert all(a[1] < b[0] for a, b in zip(runs, runs[1:])), "lower-case runs overlap"
+
+    def tree(lo_i, hi_i):
+        if lo_i >= hi_i:
+            return ".leaf"
+        m = (lo_i + hi_i) // 2
+        lo, hi, step, tlo = runs[m]
+        return f"(.node {tree(lo_i, m)} {lo} {hi} {step} {tlo} {tree(m + 1, hi_i)})"
+
+    def find(cp):
+        a, b = 0, len(runs)
+        while a < b:
+            m = (a + b) // 2
+            lo, hi, step, tlo = runs[m]
+            if cp < lo:
+                b = m
+            elif cp > hi:
+                a = m + 1
+            else:
+                return tlo + cp - lo if (cp - lo) % step == 0 else None
+        return None
+    probe = set()
+    for cp, t in single:
+        probe.update((cp - 1, cp, cp + 1, t))
+    for cp in probe:
+        if cp >= 128 and not 0xD800 <= cp <= 0xDFFF:
+            want = chr(cp).lower()
+            got = find(cp)
+            assert (chr(got) if got is not None else (want if len(want) > 1 else chr(cp))) == want, f"lower tree wrong at {cp:#x}"
     b = lambda x: "true" if x else "false"
-    src = f"""/-! GENERATED by harness/translators/names.py from the working tree and the running interpreter — do not edit. -/
+    src = f"""import PkgModel.RunTree
+/-! GENERATED by harness/translators/names.py from the working tree and the running interpreter — do not edit. -/
 namespace Gen.NameTables
 /-- `_canonicalize_regex` is `<one atom>+`; these are the code points the atom accepts -/
 def canonStructureOk : Bool := {b(canon_ok)}
@@ -169,8 +200,9 @@ def buildStructureOk : Bool := {b(b_ok)}
 def digitTable : List (Nat × Nat × Nat) := [{", ".join(f"({lo}, {hi}, {v})" for lo, hi, v in digit_tab)}]
 def notDot : List (Nat × Nat) := {_ranges_lean(nodot)}
 /-- `chr(cp).lower()` for every non-ASCII code point it changes: `(lo, hi, step, t)` — code points `cp` in `lo..hi` with
-`(cp - lo) % step = 0` lower to the single code point `t + (cp - lo)`; `lowerSpecial`: the multi-character cases -/
-def lowerRuns : List (Nat × Nat × Nat × Nat) := [{", ".join(f"({a}, {b_}, {c}, {d})" for a, b_, c, d in runs)}]
+`(cp - lo) % step = 0` lower to the single code point `t + (cp - lo)` (runs are disjoint; stored as a search tree);
+`lowerSpecial`: the multi-character cases -/
+def lowerTree : Py.RunTree := {tree(0, len(runs))}
 def lowerSpecial : List (Nat × List Nat) := [{", ".join(f"({cp}, {l})" for cp, l in special)}]
 end Gen.NameTables
 """
